@@ -83,6 +83,46 @@ def label_problems(isa, text):
     return probs, prog.enc_errors
 
 
+def scan_program(item):
+    E = e0mod.shared()
+    req = {'cmd': 'stages', 'asm': True}
+    if 'src' in item:
+        req['src'] = item['src']
+    else:
+        req['path'] = item['path']
+    r = E.req(req)
+    out = {'name': item['name'], 'obligations': 0, 'discharged': 0, 'reports': []}
+    if 'asm' not in r:
+        out['skipped'] = True
+        return out
+    work = tempfile.mkdtemp(prefix='c14_')
+    try:
+        for isa_name in ('x86_64', 'aarch64', 'rv64'):
+            a = r['asm'].get(isa_name, {})
+            if 'text' not in a:
+                continue      # capacity panics (e.g. rv64 print) are outside this property
+            out['obligations'] += 1
+            try:
+                probs, enc = label_problems(smerun.isa_by_name(isa_name), a['text'])
+            except core.LoadError as e:
+                out['reports'].append((f"{isa_name}/program/unparsable", f"{item['name']} ({isa_name}): {e}"[:300], {'program': item['name'], 'src': item.get('src')}))
+                continue
+            if probs or enc:
+                out['reports'].append((f"{isa_name}/program/" + ('encoding' if enc else 'labels'), f"{item['name']} ({isa_name}): {'; '.join(probs + enc)[:300]}",
+                                       {'program': item['name'], 'src': item.get('src'), 'problems': probs, 'enc': enc}))
+                continue
+            if isa_name == 'x86_64':
+                ok, msg, _ = gas.assemble(a['text'], work, name='p')
+                if not ok:
+                    out['reports'].append(("x86_64/program/assembler", f"{item['name']}: GNU as rejects the transliterated text: {msg[:200]}",
+                                           {'program': item['name'], 'src': item.get('src'), 'as': msg}))
+                    continue
+            out['discharged'] += 1
+    finally:
+        shutil.rmtree(work, ignore_errors=True)
+    return out
+
+
 def c14():
     tier = fw.tier()
     chk = fw.Check('C14', 'proof')
@@ -156,36 +196,23 @@ def c14():
     obligations += cnt['obligations']
     discharged += cnt['discharged']
     samples += smp[:3]
-    # (c) corpus programs through the whole pipeline: labels, encodability, GNU as on the x86-64 text
+    # (c) whole programs through the pipeline (repository corpus + generated families + typed random programs):
+    #     labels defined once / references defined / label characters, encodability, GNU as on the x86-64 text
+    import tv
+    pitems = [{'name': os.path.basename(f), 'path': f} for f in corpus_files()] + tv.gen_items(tier, 'all')
+    pres = fw.pmap(scan_program, pitems, order_seed=fw.seed())
     progs = 0
-    work = tempfile.mkdtemp(prefix='c14_')
-    try:
-        for path in corpus_files():
-            r = E.req({'cmd': 'stages', 'path': path, 'asm': True})
-            if 'asm' not in r:
-                continue
-            progs += 1
-            for isa_name in ('x86_64', 'aarch64', 'rv64'):
-                a = r['asm'].get(isa_name, {})
-                if 'text' not in a:
-                    continue      # capacity panics (e.g. rv64 print) are outside this property
-                obligations += 1
-                try:
-                    probs, enc = label_problems(smerun.isa_by_name(isa_name), a['text'])
-                except core.LoadError as e:
-                    chk.report(f"{isa_name}/program/unparsable", f"{path}: {e}", {'path': path})
-                    continue
-                if probs or enc:
-                    chk.report(f"{isa_name}/program/" + ('encoding' if enc else 'labels'), f"{path} ({isa_name}): {'; '.join(probs + enc)[:300]}", {'path': path, 'problems': probs, 'enc': enc})
-                    continue
-                if isa_name == 'x86_64':
-                    ok, msg, _ = gas.assemble(a['text'], work, name=os.path.basename(path)[:-3])
-                    if not ok:
-                        chk.report("x86_64/program/assembler", f"{path}: GNU as rejects the transliterated text: {msg[:200]}", {'path': path, 'as': msg})
-                        continue
-                discharged += 1
-    finally:
-        shutil.rmtree(work, ignore_errors=True)
+    for r in pres:
+        if 'error' in r and 'name' not in r:
+            chk.inconc(f"program scan machinery error: {r['error']}")
+            continue
+        if r.get('skipped'):
+            continue
+        progs += 1
+        obligations += r['obligations']
+        discharged += r['discharged']
+        for key, what, obj in r['reports']:
+            chk.report(key, what, obj)
     chk.coverage.update({
         'obligations': obligations, 'discharged': discharged, 'checker_cmd': f"bin/check C14 --tier {tier}",
         'trusted_base': ["encodability rules per instruction form in the SME parsers (imm32 / imm12 / imm16 / scaled offsets)",
@@ -195,7 +222,8 @@ def c14():
         'evaluations': obligations, 'distinct_nontrivial': obligations,
         'rule': "7 Kani harnesses (all 2^64 literals x all spill positions / registers; all positions and field indices; "
                 "jump_length(n) = n * stride up to the capacity); every fragment shape of C06-C08 parsed for encodability and "
-                "duplicate labels; dispatch/tag/target goals through the layout model; corpus programs end to end",
+                "duplicate labels; dispatch/tag/target goals through the layout model; whole programs end to end (corpus, generated "
+                "families incl. nested type arguments and generated-looking names, typed random programs) on the three back ends",
         'samples': samples, 'kani_seconds': round(ksecs, 1), 'fragments_parsed': frag_cnt, 'fragment_seconds': round(frag_s, 1),
         'corpus_programs': progs, 'solver_queries': cnt['queries'], 'solver_seconds': cnt['solver_s'],
         'not_claimed': "no user identifier collides with a runtime or generated symbol, for all identifiers (label-forming code is format!/String; exercised on the corpus only)",
